@@ -256,3 +256,55 @@ Section Run.
   Qed.
 End Run.
 Print Assumptions C08_ranges_binary64_unconditional.
+
+(* ------------------------------------------------------------------ *)
+(* C19 in binary64: the step a proposal uses, max_step * ratio, never exceeds max_step                 *)
+
+Lemma F_scaled_le (ms r : F) :
+  ffin ms -> fleb 0%float ms = true -> fposn r -> fleb r 1%float = true ->
+  fleb (Coq.Floats.PrimFloat.mul ms r) ms = true.
+Proof.
+  intros Fms Pms Hr Hr1.
+  destruct (fposn_le_one_bounded r Hr Hr1) as [Fr Mr].
+  unfold ffin, fmag, fposn in *. rewrite leb_equiv in *. rewrite mul_equiv. rewrite Prim2B_zero in Pms.
+  set (M := Prim2B ms) in *. set (Rr := Prim2B r) in *.
+  (* 0 <= ms and 0 <= r <= 1 as reals *)
+  assert (P0 : 0 <= B2R M).
+  { rewrite Bleb_correct in Pms by (try reflexivity; exact Fms). cbn in Pms.
+    destruct (Rle_bool_spec 0 (B2R M)); [assumption|discriminate]. }
+  assert (R0 : 0 <= B2R Rr).
+  { destruct (posn_cases _ Hr) as [E | [E | (m & e & h & E)]]; rewrite E in *; cbn; try lra.
+    apply Rlt_le. apply F2R_gt_0. reflexivity. }
+  assert (R1 : B2R Rr <= 1).
+  { pose proof (Rabs_le_inv _ _ Mr) as [_ H]. exact H. }
+  pose proof (Bmult_correct _ _ _ _ mode_NE M Rr) as H. cbn [round_mode] in H.
+  assert (Hle : Rabs (round radix2 (SpecFloat.fexp prec emax) ZnearestE (B2R M * B2R Rr)) <= Rabs (B2R M)).
+  { apply abs_round_le_generic; try typeclasses eauto.
+    - apply generic_format_abs. apply generic_format_B2R.
+    - rewrite !Rabs_pos_eq by (try assumption; now apply Rmult_le_pos).
+      rewrite <- (Rmult_1_r (B2R M)) at 2. apply Rmult_le_compat_l; assumption. }
+  assert (Hlt : Rabs (B2R M) < bpow radix2 emax) by (apply abs_B2R_lt_emax).
+  rewrite Rlt_bool_true in H by lra.
+  destruct H as (E & F & _). rewrite Fms, Fr in F. cbn in F.
+  rewrite Bleb_correct by assumption.
+  apply Rle_bool_true.
+  pose proof (Rabs_le_inv _ _ Hle) as [_ Hu]. rewrite (Rabs_pos_eq (B2R M)) in Hu by assumption.
+  eapply Rle_trans; [apply Req_le; exact E|exact Hu].
+Qed.
+
+Section StepF.
+  Variable fexp : F -> F.
+  Variable score : N -> list F -> option F.
+
+  (* in every reachable state the step handed to the sampler is at most the configured maximum *)
+  Theorem F_C19_step_le_max : forall c ps hs s0 draws,
+    ffin (max_step NumF c) -> fleb 0%float (max_step NumF c) = true ->
+    let st := run NumF fexp score c (init NumF c ps hs s0) draws in
+    fleb (nmul (n:=NumF) (max_step NumF c) (ratio NumF st)) (max_step NumF c) = true.
+  Proof.
+    intros c ps hs s0 draws Fms Pms st.
+    destruct (F_ratio_in_unit_interval fexp score c ps hs s0 draws) as [H1 H2].
+    cbn [nmul NumF]. now apply F_scaled_le.
+  Qed.
+End StepF.
+Print Assumptions F_C19_step_le_max.
